@@ -6,6 +6,7 @@ import (
 	"math/big"
 	"regexp"
 	"strconv"
+	"strings"
 
 	"github.com/osteele/liquid"
 	"verifmc/explore"
@@ -402,6 +403,69 @@ func c17Families(tier string) []explore.Family {
 			judgeNum(r, key, func() any { return map[string]any{"template": src} }, res, allExact, o)
 		}})
 	}
+	// scaled: powers of two and ten as operands (exactly representable), and long chains of +1
+	var mags []numVal
+	for k := 20; k <= 52; k += 4 {
+		v := int64(1) << uint(k)
+		for _, d := range []int64{-1, 0, 1} {
+			s := strconv.FormatInt(v+d, 10)
+			mags = append(mags, numVal{"i" + s, int(v + d), rat(v+d, 1), "int", s}, numVal{"f" + s, float64(v + d), rat(v+d, 1), "float", ""})
+		}
+	}
+	for _, v := range []int64{1e6, 1e6 - 1, 1e9, 1e9 + 1, 1e12, 1e12 + 1, 1e15 - 1} {
+		s := strconv.FormatInt(v, 10)
+		mags = append(mags, numVal{"i" + s, int(v), rat(v, 1), "int", s}, numVal{"f" + s, float64(v), rat(v, 1), "float", ""})
+	}
+	smallOps := []numVal{{"1", 1, rat(1, 1), "int", "1"}, {"-1", -1, rat(-1, 1), "int", "-1"}, {"2", 2, rat(2, 1), "int", "2"}, {"0.5", 0.5, rat(1, 2), "float", "0.5"}, {"3", 3, rat(3, 1), "int", "3"}, {"7.0", 7.0, rat(7, 1), "float", ""}}
+	M := len(mags)
+	fams = append(fams, explore.Family{Name: "scaled-magnitudes", Count: int64(M * len(smallOps) * len(binOps) * 2), Run: func(i int64, r *explore.Rec) {
+		rx := radix{i}
+		swap, oi, bi, ai := rx.next(2) == 1, rx.next(len(binOps)), rx.next(len(smallOps)), rx.next(M)
+		a, b, op := mags[ai], smallOps[bi], binOps[oi]
+		if swap {
+			a, b = b, a
+		}
+		src := "{{ a | " + op + ": b }}"
+		r.Eval()
+		r.Transition()
+		o := Render(c17.eng, src, map[string]any{"a": a.v, "b": b.v})
+		judgeNum(r, "scaled:"+op, func() any { return map[string]any{"template": src, "a": a.name, "b": b.name} }, refBin(op, a.r, b), true, o)
+		r.State("scaled:" + op)
+	}})
+	fams = append(fams, explore.Family{Name: "scaled-unary", Count: int64(M * 5), Run: func(i int64, r *explore.Rec) {
+		a, u := mags[int(i)/5], []string{"abs", "ceil", "floor", "round", "round: 2"}[int(i)%5]
+		if new(big.Rat).Abs(a.r).Cmp(big.NewRat(1e15, 1)) >= 0 {
+			return // float results from 1e15 on may print in exponent form (only parse-back is defined)
+		}
+		r.Eval()
+		r.Transition()
+		o := Render(c17.eng, "{{ a | "+u+" }}|{{ a | times: -1 | "+u+" }}", map[string]any{"a": a.v})
+		want := a.r.Num().String()
+		neg := "-" + want
+		if u == "abs" {
+			neg = want
+		}
+		if o.Panic != nil || o.Err != nil || o.Out != want+"|"+neg {
+			r.Violation("wrong-value:scaled:"+u, map[string]any{"a": a.name, "filter": u}, want+"|"+neg, o.String())
+		}
+	}})
+	chainLens := []int{4, 5, 7, 8, 9, 15, 16, 17, 31, 32, 33, 64, 100, 128, 129}
+	fams = append(fams, explore.Family{Name: "scaled-chains", Count: int64(len(chainLens) * 3), Run: func(i int64, r *explore.Rec) {
+		n, kind := chainLens[int(i)/3], int(i)%3
+		step, per := " | plus: 1", rat(1, 1)
+		switch kind {
+		case 1:
+			step, per = " | minus: 0.5", rat(-1, 2)
+		case 2:
+			step, per = " | times: 1 | plus: 2", rat(2, 1)
+		}
+		src := "{{ 3" + strings.Repeat(step, n) + " }}"
+		want := new(big.Rat).Add(rat(3, 1), new(big.Rat).Mul(per, rat(int64(n), 1)))
+		r.Eval()
+		r.Transition()
+		o := Render(c17.eng, src, map[string]any{})
+		judgeNum(r, "scaled-chain", func() any { return map[string]any{"template": trunc80(src), "steps": n} }, numResult{vals: []*big.Rat{want}}, true, o)
+	}})
 	return fams
 }
 
@@ -426,7 +490,7 @@ func init() {
 		ID:    "C17",
 		Level: "model_checking",
 		Rule: "all pairs of the numeric universe (ints -12..12, +-2^31, +-(2^53-1), 2^53, each as int and float64; other widths; quarters k/4; numeric and non-numeric strings; nil) x 5 binary filters as variables and literals; " +
-			"unary filters and round: 0..3 over the universe; all chains of 2 and 3 binary steps over {-3,-1,0,1,2,0.5,2.5}; oracle = exact rational arithmetic (math/big); " +
+			"unary filters and round: 0..3 over the universe; all chains of 2 and 3 binary steps over {-3,-1,0,1,2,0.5,2.5}; scaled: 2^k and 2^k+-1 for k=20..52, 10^6..10^15 as int and float against 6 small operands in both positions, unary filters on them, chains of 4..129 equal steps; oracle = exact rational arithmetic (math/big); " +
 			"class = (filter, operand kinds, verdict); state = (filter, operand kinds); transition = one filter application",
 		Assumptions: []string{
 			"exact equality is demanded only when operands and every acceptable exact result are float64-representable; otherwise relative error <= 1e-9",
